@@ -617,6 +617,9 @@ func (m *Manager) publishBlockInternal(ctx context.Context) error {
 
 	if m.config.Node.MaxPendingHeadersAndData != 0 && (m.pendingHeaders.numPendingHeaders() >= m.config.Node.MaxPendingHeadersAndData || m.pendingData.numPendingData() >= m.config.Node.MaxPendingHeadersAndData) {
 		m.logger.Warn(fmt.Sprintf("refusing to create block: pending headers [%d] or data [%d] reached limit [%d]", m.pendingHeaders.numPendingHeaders(), m.pendingData.numPendingData(), m.config.Node.MaxPendingHeadersAndData))
+		// the block that was asked for is still due: in lazy mode the request (a transaction notification or the idle
+		// timer) is consumed by this attempt, so ask again - otherwise nothing is tried before the next idle interval
+		m.NotifyNewTransactions()
 		return nil
 	}
 
